@@ -299,9 +299,9 @@ func refPyPI(a, b string) (int, bool) {
 // Debian deb-version(7): [epoch:]upstream[-revision]; algorithm = dpkg lib/dpkg/version.c verrevcmp.
 
 var (
-	debUpstream = regexp.MustCompile(`^[0-9][0-9A-Za-z.+~]*$`)
+	debUpstream  = regexp.MustCompile(`^[0-9][0-9A-Za-z.+~]*$`)
 	debUpstreamH = regexp.MustCompile(`^[0-9][0-9A-Za-z.+~-]*$`)
-	debRevision = regexp.MustCompile(`^[0-9A-Za-z.+~]+$`)
+	debRevision  = regexp.MustCompile(`^[0-9A-Za-z.+~]+$`)
 )
 
 func parseDeb(s string) (epoch, up, rev string, ok bool) {
@@ -670,8 +670,8 @@ var packagistRank = map[string]int{"dev": 0, "alpha": 1, "a": 1, "beta": 2, "b":
 func refPackagist(a, b string) (int, bool) {
 	x := packagistCanon.FindStringSubmatch(a)
 	y := packagistCanon.FindStringSubmatch(b)
-	if x == nil || y == nil {
-		return 0, false
+	if x == nil || y == nil || hasLongNumber(a, b) {
+		return 0, false // PHP compares numbers as C longs: numbers beyond 18 digits are left out
 	}
 	xn, yn := strings.Split(x[1], "."), strings.Split(y[1], ".")
 	if len(xn) != len(yn) {
